@@ -97,6 +97,15 @@ fn vq_c09_rtt_loss_time_threshold() {
 // ---------------------------------------------------------------------------------------------------
 // PTO period: one harness per concrete backoff (a symbolic factor is SAT-hard, DESIGN 7), formula on the
 // u64 microseconds the code computes, then pto_period() == from_micros(max(base, 1 ms)).
+//@ harness props=C09 tier=thorough level=bounded timeout=3000 bound="backoff = 1; smoothed_rtt, rttvar < 4 s; max_ack_delay whole ms < 2^14"
+//@ fn RttEstimator::pto_period
+//@ fn RttEstimator::calculate_base_pto_micros
+#[kani::proof]
+#[kani::unwind(3)]
+fn vq_c09_rtt_pto_period_backoff_1() {
+    pto_formula(1);
+}
+
 fn pto_formula(backoff: u32) {
     let mut e = RttEstimator::new(Duration::from_millis(333));
     let (srtt, _, srtt_us) = any_dur_us();
@@ -124,16 +133,8 @@ fn pto_formula(backoff: u32) {
     kani::cover!(true, "reach:end");
 }
 
-//@ harness props=C09 tier=quick level=bounded timeout=300 bound="backoff = 1; smoothed_rtt, rttvar < 4 s; max_ack_delay whole ms < 2^14"
-//@ fn RttEstimator::pto_period
-//@ fn RttEstimator::calculate_base_pto_micros
-#[kani::proof]
-#[kani::unwind(3)]
-fn vq_c09_rtt_pto_period_backoff_1() {
-    pto_formula(1);
-}
 
-//@ harness props=C09 tier=thorough level=bounded timeout=1200 bound="backoff = 2; smoothed_rtt, rttvar < 4 s; max_ack_delay whole ms < 2^14"
+//@ harness props=C09 tier=thorough level=bounded timeout=3000 bound="backoff = 2; smoothed_rtt, rttvar < 4 s; max_ack_delay whole ms < 2^14"
 //@ fn RttEstimator::pto_period
 //@ fn RttEstimator::calculate_base_pto_micros
 #[kani::proof]
@@ -142,7 +143,7 @@ fn vq_c09_rtt_pto_period_backoff_2() {
     pto_formula(2);
 }
 
-//@ harness props=C09 tier=thorough level=bounded timeout=1200 bound="backoff = 4; smoothed_rtt, rttvar < 4 s; max_ack_delay whole ms < 2^14"
+//@ harness props=C09 tier=thorough level=bounded timeout=3000 bound="backoff = 4; smoothed_rtt, rttvar < 4 s; max_ack_delay whole ms < 2^14"
 //@ fn RttEstimator::pto_period
 //@ fn RttEstimator::calculate_base_pto_micros
 #[kani::proof]
@@ -151,7 +152,7 @@ fn vq_c09_rtt_pto_period_backoff_4() {
     pto_formula(4);
 }
 
-//@ harness props=C09 tier=thorough level=bounded timeout=1200 bound="backoff = 8; smoothed_rtt, rttvar < 4 s; max_ack_delay whole ms < 2^14"
+//@ harness props=C09 tier=thorough level=bounded timeout=3000 bound="backoff = 8; smoothed_rtt, rttvar < 4 s; max_ack_delay whole ms < 2^14"
 //@ fn RttEstimator::pto_period
 //@ fn RttEstimator::calculate_base_pto_micros
 #[kani::proof]
@@ -160,7 +161,7 @@ fn vq_c09_rtt_pto_period_backoff_8() {
     pto_formula(8);
 }
 
-//@ harness props=C09 tier=thorough level=bounded timeout=1200 bound="backoff = 64; smoothed_rtt, rttvar < 4 s; max_ack_delay whole ms < 2^14"
+//@ harness props=C09 tier=thorough level=bounded timeout=3000 bound="backoff = 64; smoothed_rtt, rttvar < 4 s; max_ack_delay whole ms < 2^14"
 //@ fn RttEstimator::pto_period
 //@ fn RttEstimator::calculate_base_pto_micros
 #[kani::proof]
@@ -169,7 +170,7 @@ fn vq_c09_rtt_pto_period_backoff_64() {
     pto_formula(64);
 }
 
-//@ harness props=C09 tier=quick level=bounded timeout=300 bound="backoff in {1,2,4,...,2^15}; estimator durations < 4 s"
+//@ harness props=C09 tier=thorough level=bounded timeout=3000 bound="backoff in {1,2,4,...,2^15}; estimator durations < 4 s"
 //@ fn RttEstimator::calculate_base_pto_micros
 //@ fn RttEstimator::pto_period
 #[kani::proof]
@@ -206,7 +207,7 @@ fn vq_c09_rtt_weighted_average() {
     assert!(rtt_weighted_average_within(a_ns, b_ns, w as i128, r), "C09/rtt.weighted_average/within_inputs_up_to_rounding_slack");
     kani::cover!(w == 8 && r == rmin(a_ns, b_ns) - 7, "reach:slack_7ns_attained");
     kani::cover!(w == 4 && r == rmin(a_ns, b_ns) - 3, "reach:slack_3ns_attained");
-    kani::cover!(r == rmax(a_ns, b_ns) && a_ns != b_ns, "reach:upper_bound_attained");
+    kani::cover!(r == rmax(a_ns, b_ns) && r > 0, "reach:upper_bound_attained");
     kani::cover!(true, "reach:end");
 }
 
@@ -233,12 +234,16 @@ fn vq_c09_rtt_update_first_sample() {
     kani::cover!(true, "reach:end");
 }
 
-//@ harness props=C09 tier=quick level=bounded timeout=300 bound="sample, ack_delay, estimator durations < 4 s (ns resolution)"
-//@ fn RttEstimator::update_rtt
-//@ fn weighted_average
-#[kani::proof]
-#[kani::unwind(3)]
-fn vq_c09_rtt_update_later_sample() {
+/// one later (not first) sample on an arbitrary estimator; returns what the three harnesses below need
+struct Later {
+    old: Rtt,
+    new: Rtt,
+    sample_ns: i128,
+    eff: i128,
+    confirmed: bool,
+    first_sample_kept: bool,
+}
+fn later_sample() -> Later {
     let mut e = any_estimator();
     e.first_rtt_sample = Some(t0());
     let old = abs(&e);
@@ -249,26 +254,83 @@ fn vq_c09_rtt_update_later_sample() {
     let later = unsafe { Timestamp::from_duration(Duration::from_micros(9_000_000)) };
     e.update_rtt(ack_delay, sample, later, confirmed, space);
     let new = abs(&e);
+    let eff = rtt_effective_ack_delay(old, ack_delay_ns, confirmed, matches!(space, PacketNumberSpace::Initial));
+    kani::cover!(confirmed && ack_delay_ns > old.max_ack_delay && eff == old.max_ack_delay, "reach:ack_delay_capped");
+    kani::cover!(matches!(space, PacketNumberSpace::Initial) && ack_delay_ns > 0, "reach:initial_space_ignores_ack_delay");
+    Later { old, new, sample_ns, eff, confirmed, first_sample_kept: e.first_rtt_sample == Some(t0()) }
+}
+
+//@ harness props=C09 tier=quick level=bounded timeout=600 bound="sample, ack_delay, estimator durations < 4 s (ns resolution)"
+//@ fn RttEstimator::update_rtt
+#[kani::proof]
+#[kani::unwind(3)]
+fn vq_c09_rtt_update_later_sample_bookkeeping() {
+    let Later { old, new, sample_ns, eff, confirmed, first_sample_kept } = later_sample();
     assert!(rtt_update_latest(old, sample_ns, new), "C09/rtt.update_rtt/latest_is_sample_floored_at_1us");
     assert!(rtt_update_min(old, sample_ns, new), "C09/rtt.update_rtt/min_rtt_is_running_minimum");
-    assert!(e.first_rtt_sample == Some(t0()) && new.max_ack_delay == old.max_ack_delay, "C09/rtt.update_rtt/frame_first_sample_time_and_max_ack_delay");
-    let eff = rtt_effective_ack_delay(old, ack_delay_ns, confirmed, matches!(space, PacketNumberSpace::Initial));
+    assert!(first_sample_kept && new.max_ack_delay == old.max_ack_delay, "C09/rtt.update_rtt/frame_first_sample_time_and_max_ack_delay");
     if rtt_sample_ignored(new, eff, confirmed) {
         assert!(new.srtt == old.srtt && new.rttvar == old.rttvar, "C09/rtt.update_rtt/implausible_delay_before_confirmation_leaves_estimates");
-    } else {
-        let adj = rtt_adjusted(new, eff);
-        assert!(rtt_update_estimates(old, adj, new), "C09/rtt.update_rtt/ewma_formulas");
-        assert!(rtt_update_srtt_within_samples(old, adj, new), "C09/rtt.update_rtt/srtt_within_range_of_samples_7ns_slack");
     }
     kani::cover!(rtt_sample_ignored(new, eff, confirmed), "reach:sample_ignored");
     kani::cover!(!rtt_sample_ignored(new, eff, confirmed) && rtt_adjusted(new, eff) < new.latest, "reach:ack_delay_subtracted");
-    kani::cover!(confirmed && ack_delay_ns > old.max_ack_delay && eff == old.max_ack_delay, "reach:ack_delay_capped");
     kani::cover!(new.min < old.min, "reach:new_minimum");
     kani::cover!(true, "reach:end");
 }
 
+//@ harness props=C09 tier=thorough level=bounded timeout=3000 bound="sample, ack_delay, estimator durations < 4 s (ns resolution)"
+//@ fn RttEstimator::update_rtt
+//@ fn weighted_average
+#[kani::proof]
+#[kani::unwind(3)]
+fn vq_c09_rtt_update_later_sample_srtt() {
+    let Later { old, new, eff, confirmed, .. } = later_sample();
+    if !rtt_sample_ignored(new, eff, confirmed) {
+        let adj = rtt_adjusted(new, eff);
+        assert!(new.srtt == rtt_weighted_average_ns(old.srtt, adj, 8), "C09/rtt.update_rtt/smoothed_rtt_is_7_8_old_plus_1_8_adjusted");
+        assert!(rtt_update_srtt_within_samples(old, adj, new), "C09/rtt.update_rtt/srtt_within_range_of_samples_7ns_slack");
+        kani::cover!(new.srtt < old.srtt, "reach:srtt_decreases");
+        kani::cover!(new.srtt > old.srtt, "reach:srtt_increases");
+    }
+    kani::cover!(true, "reach:end");
+}
+
+//@ harness props=C09 tier=thorough level=bounded timeout=3000 bound="sample, ack_delay, estimator durations < 4 s (ns resolution)"
+//@ fn RttEstimator::update_rtt
+//@ fn weighted_average
+#[kani::proof]
+#[kani::unwind(3)]
+fn vq_c09_rtt_update_later_sample_rttvar() {
+    let Later { old, new, eff, confirmed, .. } = later_sample();
+    if !rtt_sample_ignored(new, eff, confirmed) {
+        let adj = rtt_adjusted(new, eff);
+        // RFC 9002 5.3 with erratum 7539: rttvar_sample = |smoothed_rtt(old) - adjusted_rtt|
+        let dev = if old.srtt >= adj { old.srtt - adj } else { adj - old.srtt };
+        assert!(new.rttvar == rtt_weighted_average_ns(old.rttvar, dev, 4), "C09/rtt.update_rtt/rttvar_is_3_4_old_plus_1_4_deviation");
+        assert!(rtt_update_estimates(old, adj, new) || new.srtt != rtt_weighted_average_ns(old.srtt, adj, 8), "C09/rtt.update_rtt/ewma_formulas");
+        kani::cover!(old.srtt < adj, "reach:sample_above_srtt");
+    }
+    kani::cover!(true, "reach:end");
+}
+
+//@ harness props=C09 tier=quick level=bounded timeout=300 bound="estimator durations < 4 s; backoff 1..2^16 symbolic"
+//@ fn RttEstimator::pto_period
+#[kani::proof]
+#[kani::unwind(3)]
+fn vq_c09_rtt_pto_period_at_least_granularity() {
+    // "the probe timeout is never below the timer granularity" -- no exact value needed, so the backoff can stay symbolic
+    let e = any_estimator();
+    let b: u32 = kani::any();
+    kani::assume(b >= 1 && b <= 1 << 16);
+    let p = e.pto_period(b, any_space());
+    assert!(p >= K_GRANULARITY, "C09/rtt.pto_period/never_below_1ms");
+    kani::cover!(b == 1 << 16, "reach:largest_backoff");
+    kani::cover!(p > Duration::from_secs(1000), "reach:long_period");
+    kani::cover!(true, "reach:end");
+}
+
 // ---------------------------------------------------------------------------------------------------
-//@ harness props=C09 tier=quick level=bounded timeout=300 bound="smoothed_rtt, rttvar < 4 s; max_ack_delay whole ms < 2^14"
+//@ harness props=C09 tier=thorough level=bounded timeout=3000 bound="smoothed_rtt, rttvar < 4 s; max_ack_delay whole ms < 2^14"
 //@ fn RttEstimator::persistent_congestion_threshold
 #[kani::proof]
 #[kani::unwind(3)]
